@@ -1,17 +1,38 @@
 (* C02 — Redacted output is independent of unsafe data (non-interference).
    Proved here (all histories, all payloads, all programs of the model):
+     - NON-INTERFERENCE OF REDACT AT THE BUFFER LEVEL: two histories that make the same calls, with
+       equal payloads in safe and raw mode and ARBITRARY payloads of equal skeleton in unsafe
+       mode (line feeds at the same places, the stretches between them empty or not - the
+       property's "same emptiness, same line-break positions"), return strings whose Redact() is
+       byte-identical; envelope merging and elision, markers and partial markers in the data,
+       truncated UTF-8 in the unsafe payloads included.  Side condition (public, decidable): no
+       dangling-tail mark is appended OUTSIDE an envelope (ptail_ok);
      - the text outside the envelopes of a Buffer history is a function of its public view
        (unsafe-mode payloads reduced to their line feeds);
      - whatever is written while the override is Unsafe is written in unsafe mode (D2), and an
        unsafe segment contributes nothing but line feeds to the text outside envelopes;
      - Redact() keeps exactly that text and replaces every envelope body by the cross (C07).
-   NOT proved (named _partial below): that the number and placement of the envelopes is also a
-   function of the public view, and that the printer writes every leaf that is not declared
-   safe in unsafe mode; both are decided by the correspondence and the black-box predicate
-   (three instantiations per shape, Redact() compared byte for byte). *)
+   NOT proved: that the printer makes the same calls for two instantiations of the unsafe leaves
+   and writes every leaf that is not declared safe in unsafe mode (parametricity of the
+   evaluator in its leaf payloads); this is decided by the correspondence and the black-box
+   predicate (three instantiations per shape, Redact() compared byte for byte). *)
 From Redact Require Import Bytes Tokens Utf8 Markers Buffer Ops BufInv BufContent LBuf Printer.
-From Redact Require Import TokensP MarkersP BufInvP BufContentP Hoare Discipline.
+From Redact Require Import TokensP MarkersP BufInvP BufContentP RedactNI Hoare Discipline.
 Import List ListNotations.
+
+Theorem C02_buffer_noninterference : forall ops1 ops2,
+  sim_ops MUnsafe ops1 ops2 ->
+  ptail_ok_from init ops1 = true -> ptail_ok_from init ops2 = true ->
+  redact_b (output ops1) = redact_b (output ops2).
+Proof. exact redact_noninterference. Qed.
+Print Assumptions C02_buffer_noninterference.
+
+(* Redact() depends on the shape only: the text outside envelopes and, per envelope, whether it is
+   closed and whether it is empty *)
+Theorem C02_redact_is_a_function_of_the_shape : forall x y,
+  wf (lex x) = true -> wf (lex y) = true -> shape x = shape y -> redact_b x = redact_b y.
+Proof. exact same_shape_same_redact. Qed.
+Print Assumptions C02_redact_is_a_function_of_the_shape.
 
 Theorem C02_safe_text_noninterference_partial : forall ops1 ops2,
   pub MUnsafe ops1 = pub MUnsafe ops2 ->
@@ -54,5 +75,17 @@ Example C02_nonvacuous :
   let ops2 := [OMode MSafe; OWrite [97]; OMode MUnsafe; OWrite [120; 10; 121]; OMode MSafe; OWrite [98]]%N in
   pub MUnsafe ops1 = pub MUnsafe ops2 /\ rawok ops1 = true /\ content_ok ops1 = true /\
   rawok ops2 = true /\ content_ok ops2 = true /\ output ops1 <> output ops2 /\
+  redact_b (output ops1) = redact_b (output ops2).
+Proof. vm_compute. repeat split; congruence. Qed.
+
+(* ... and the hypotheses of the non-interference theorem on a history with markers, a partial
+   marker and truncated UTF-8 in the unsafe data, an envelope merge and a line-feed split *)
+Example C02_nonvacuous_ni :
+  let ops1 := [OMode MSafe; OWrite [97]; OMode MUnsafe; OWrite [226;128;185; 115; 10; 226;128]; OWriteByte 200;
+               OMode MSafe; OMode MUnsafe; OWrite [195]; OMode MSafe; OWrite [98]]%N in
+  let ops2 := [OMode MSafe; OWrite [97]; OMode MUnsafe; OWrite [120; 10; 121; 122]; OWrite [119];
+               OMode MSafe; OMode MUnsafe; OWriteRune 233%Z; OMode MSafe; OWrite [98]]%N in
+  sim_ops MUnsafe ops1 ops2 /\
+  ptail_ok_from init ops1 = true /\ ptail_ok_from init ops2 = true /\ output ops1 <> output ops2 /\
   redact_b (output ops1) = redact_b (output ops2).
 Proof. vm_compute. repeat split; congruence. Qed.
